@@ -28,9 +28,9 @@ def outcome(I, T, s):
     return ('ok', accessors(I, T, p), display(I, T, p))
 
 
-def outcome_build(I, T, tyb, name, steps):
+def outcome_build(I, T, tyb, name, steps, via='ctor'):
     T = kind_for(I, T)
-    b = b_new(I, T, mk_type(I, T, tyb), name)
+    b = b_parsed(I, T, tyb, True) if via == 'parsed_long' else b_new(I, T, mk_type(I, T, tyb), name)
     for m, *args in steps:
         b = b_call(I, T, b, m, *args)
         if m == 'with_qualifier':
@@ -139,10 +139,43 @@ def h_keycmp(L, key, olen, sets):
     return 'accepted' if o0[0] else 'rejected'
 
 
+def h_inplace(L, T, steps, sets):
+    """edit-and-rebuild with fields shrunk in place (values that were long keep their allocation): same outcome under every feature set"""
+    def mat(a):
+        if isinstance(a, tuple):
+            b = L.sym_bytes(a[1], a[2])
+            L.assume_utf8(b)
+            return b
+        return list(a.encode())
+    st_ = [(m,) + tuple(mat(a) for a in args) for m, *args in steps]
+    req = {'op': 'build', 'T': KINDS[T][1], 'type': SymStr(list(b't')), 'name': SymStr(list(b'n')), 'via': 'parsed_long',
+           'steps': [[m] + [SymStr(a) for a in args] for m, *args in st_]}
+    L.expect_native(req, {})
+    outs = {}
+    try:
+        for st in sets:
+            I = L.I if L.progs[st] is L.I.prog else Interp(L.progs[st], L.ctx)
+            outs[st] = outcome_build(I, T, list(b't'), list(b'n'), st_, via='parsed_long')
+    except Panic as e:
+        L.fail('panic: %s' % e.msg)
+        return 'panic'
+    o = outs[sets[0]]
+    L.expect_native(req, {'err': o[1]} if o[0] == 'err' else {'ok': obs_expect(o[1], o[2])})
+    for st in sets[1:]:
+        compare(L, o, outs[st], sets[0], st)
+    return 'built' if o[0] == 'ok' else 'rejected'
+
+
 def queries(tier):
     th = tier == 'thorough'
     qs = []
     ALL = ['default', 'nodefault', 'pt']
+    # long components shrunk in place through the public `parts` (a small string keeps its heap allocation when shortened)
+    for T in ('String', 'SmallString'):
+        for steps in ([('truncate_version', '0')], [('truncate_namespace', '0'), ('truncate_subpath', '0')], [('truncate_version', '3'), ('truncate_qualifier', 'download_url', '0')],
+                      [('truncate_subpath', '4'), ('with_version', ('hole', 'h', 1))]):
+            qs.append(Query('%s edit in place %s [%s]' % (T, steps, '|'.join(ALL)), h_inplace, {'T': T, 'steps': steps, 'sets': ALL},
+                            bound='a PURL with components longer than 23 bytes, turned into a builder, %s, built; feature sets %s' % (steps, ALL), prog='default'))
 
     def addp(T, parts, sets):
         qs.append(Query('%s %s [%s]' % (T, show_template(parts), '|'.join(sets)), h_parse, {'T': T, 'parts': parts, 'sets': sets},
@@ -222,6 +255,6 @@ vacuity = std_vacuity
 LEVEL_TEXT = ('bounded symbolic model checking as a product over MIR dumps: the crate\'s MIR is regenerated for the feature sets {default}, {package-type} and {} and the same symbolic '
               'input runs through all of them on one path; acceptance, error (incl. its Display text), accessors and canonical string must be identical (solver validity query). '
               'This decides divergence in purl\'s own code between feature sets (cfg-gated code, SmallString alias); the witnesses are replayed on native oracles built with each feature set')
-ASSUMPTIONS = ['SmartString::is_inline() is modelled as len <= 23: a string shortened in place stays on the heap in the real crate; values whose representation differs from what their length implies (in-place truncate through builder.parts / get_mut) are outside the claim (seeded changes S7-C17, S7-C19 are not detected)',
+ASSUMPTIONS = ['SmartString::is_inline() is modelled by a high-water mark per buffer (inline while it never held more than 23 bytes); only the in-place edits listed in the queries (truncate of parts fields / a qualifier value) produce short-but-boxed values',
                'String and SmartString share one engine model, so a behavioural difference inside the smartstring crate itself is only sampled by the native replay under each feature set',
                'the {default, serde} set is covered by C16, which runs the same parser paths on the serde dump']
